@@ -293,19 +293,22 @@ def monitor(lm, cfg, t, c):
             # `ibrun -o off`: rank j runs on task slot off + j of the job (tpn slots per node, nodes in RM order).
             # Judged only for placements ibrun can express at all.
             nodes, tpn, cpr = cfg['node_idx'], c['tpn'], t['cpr']
-            s0 = t['slots'][0]
-            if s0['node'] in nodes and s0['cores'][0] % cpr == 0:
-                off0 = nodes.index(s0['node']) * tpn + s0['cores'][0] // cpr
-                expressible = tpn * cpr <= cfg['cpn'] and all(
-                    (off0 + j) // tpn < len(nodes) and s['node'] == nodes[(off0 + j) // tpn]
-                    and s['cores'] == list(range(((off0 + j) % tpn) * cpr, ((off0 + j) % tpn) * cpr + cpr))
-                    for j, s in enumerate(t['slots']))
-                if expressible and len(t['slots']) == n and c['offset'] != off0:
+            # the task slot of the job each rank sits on (none if its cores are not one aligned block); the ranks may be
+            # listed in any order: what counts is the set of task slots
+            def slot_of(sl):
+                if sl['node'] not in nodes or not sl['cores'] or sl['cores'][0] % cpr: return None
+                loc = sl['cores'][0] // cpr
+                if loc >= tpn or sl['cores'] != list(range(loc * cpr, loc * cpr + cpr)): return None
+                return nodes.index(sl['node']) * tpn + loc
+            idx = [slot_of(sl) for sl in t['slots']]
+            if tpn and cpr and tpn * cpr <= cfg['cpn'] and None not in idx and len(idx) == n:
+                off0 = min(idx)
+                if sorted(idx) == list(range(off0, off0 + n)) and c['offset'] != off0:
                     where = [(nodes[(c['offset'] + j) // tpn] if (c['offset'] + j) // tpn < len(nodes) else None, ((c['offset'] + j) % tpn) * cpr)
                              for j in range(n)]
                     bad.append(('ibrun:offset-starts-ranks-elsewhere',
                                 '-o %d (tasks per node %d) starts the ranks at (node, first core) %s, the placement is %s'
-                                % (c['offset'], tpn, where, [(s['node'], s['cores'][0]) for s in t['slots']])))
+                                % (c['offset'], tpn, where, [(sl['node'], sl['cores'][0]) for sl in t['slots']])))
     elif k == 'prte':
         total = c['np']
         got = {}
@@ -345,6 +348,7 @@ def gen_task(rng, lm, cfg, force_n=None):
                 loc = (off + j) % tpn
                 h = nodes[(off + j) // tpn]
                 slots.append({'host': h, 'node': h, 'cores': list(range(loc * cpr, loc * cpr + cpr)), 'gpus': []})
+            if rng.random() < 0.4: rng.shuffle(slots)        # the same placement, its ranks listed in another order
             return {'ranks': n, 'cpr': cpr, 'gpus': False, 'slots': slots, 'use_mpi': rng.choice([None, True]), 'exe': True}
     slots = []
     # ranks of a task are grouped by node, nodes in list order (what the continuous scheduler produces),
